@@ -196,16 +196,23 @@ def print_gnu(entry, ops):
             else:
                 out.append("s%d_%d_c%d_c%d_%d" % (2 + ((v >> 14) & 1), (v >> 11) & 7, (v >> 7) & 15, (v >> 3) & 15, v & 7))
             continue
-        if k == "SVecList":
+        if k in ("SVecList", "SVecListElem"):
             regs = [o]
             while len(regs) < 8 and i < len(ops) and ops[i][0] == "v":
                 regs.append(ops[i]); i += 1
             if any(x[0] != "v" for x in regs):
                 return None
+            if (k == "SVecListElem") != (regs[0][3] >= 0):
+                return None                      # whole-register list vs single-lane list: another row's shape
             ts = [p_vec(x) for x in regs]
             if any(t is None for t in ts) or len(regs) > 4:
                 bad = True
-            out.append("{ " + ", ".join(str(t) for t in ts) + " }")
+            if k == "SVecListElem":
+                if any(x[3] != regs[0][3] for x in regs):
+                    bad = True                   # one lane index for the whole list
+                out.append("{ " + ", ".join(str(t).split("[")[0] for t in ts) + " }[%d]" % regs[0][3])
+            else:
+                out.append("{ " + ", ".join(str(t) for t in ts) + " }")
             continue
         if k in ("SMemPostReg", "SMemPostImm"):
             if o[0] != "m":
@@ -276,7 +283,7 @@ def print_gnu(entry, ops):
                 out.append("#%s" % repr(d))
             else:
                 out.append("#%d.0" % o[2])
-        elif k in ("SImmU", "SImmS", "SLogImm", "SImmLt", "SMovImm", "SVShift", "SImmRsub"):
+        elif k in ("SImmU", "SImmS", "SLogImm", "SImmLt", "SMovImm", "SVShift", "SImmRsub", "SImmAff"):
             if o[0] != "i":
                 return None
             out.append("#%d" % o[2])
@@ -419,6 +426,25 @@ def strata(s, pos, rng, tier, isx):
         es = s[2]
         vs = [3, 0, 1, es - 1, es, es + 1, -1, 7, 8, 9, 15, 16, 17, 31, 32, 33, 63, 64, 65, 2 * es]
         return [[("i", 0, v)] for v in vs]
+    if k == "SVecListElem":
+        n, et, lanes = s[1], s[2], s[6]
+
+        def lst(start, ei, nn=n, step=1, types=None, lane_of=None):
+            return [("v", (types or {}).get(q, (4, et))[0], (types or {}).get(q, (4, et))[1], (lane_of or {}).get(q, ei), (start + q * step) % 32 if start < 32 else start + q) for q in range(nn)]
+        out = [lst(pos + 1, min(1, lanes - 1))]
+        for ei in list(range(lanes)) + [lanes, 15]:
+            out.append(lst(pos + 1, ei))
+        for st in (0, 15, 29, 30, 31, 32):
+            out.append(lst(st, 0))
+        out.append(lst(pos + 1, 0, step=2))
+        out.append(lst(pos + 1, 0, step=0))
+        out.append(lst(pos + 1, 0, types={n - 1: (3, et)}))
+        out.append(lst(pos + 1, 0, types={1: (4, (et % 4) + 1)}))
+        out.append(lst(pos + 1, 0, lane_of={n - 1: 1 if lanes > 1 else -1}))
+        out.append(lst(pos + 1, 0, nn=n - 1))
+        if n < 4:
+            out.append(lst(pos + 1, 0, nn=n + 1))
+        return out
     if k == "SVecList":
         n, rt, et = s[1], s[2], s[3]
 
@@ -484,6 +510,10 @@ def strata(s, pos, rng, tier, isx):
         ds = [1.0, 2.0, 0.125, 31.0, -1.5, 1.0625, 0.1, 0.0, -0.0, 32.0, 0.0625, 1.03125, float("inf"), float("nan"), 1.9375, -31.0, 0.2421875,
               [0.125, 0.25, 0.5, 1.0, 2.0, 4.0, 8.0, 16.0][rng.randrange(8)] * (16 + rng.randrange(16)) / 16.0 * (1 - 2 * rng.randrange(2))]
         return [[("i", 256, f64(d))] for d in ds] + [[("i", 0, v)] for v in (1, 2, -1, 31, 32, 0, 3, 17, -17, 1 << 31, -(1 << 31) - 1, 1 << 40)]
+    if k == "SImmAff":
+        w, base, step = s[2], s[3], s[4]
+        vs = [base + step * q for q in range(1 << w)] + [base - step, base + step * (1 << w), 0, base + 1, base + step // 2, -base, 360]
+        return [[("i", 0, v)] for v in vs]
     if k == "SImmRsub":
         c, lo, hi = s[3], s[4], s[5]
         vs = [lo + bits_pattern(s[2]) % (hi - lo + 1), lo, hi, lo - 1, hi + 1, 0, -1, 31, 32, 33, 63, 64, 65, rng.randint(lo, hi)]
@@ -878,6 +908,18 @@ def operand_defect_key(case, enc_of):
             return "C02/sysop-id-above-14-bits-accepted/%s" % enc
         if sy[0] == "SGpPair" and i + 1 < len(case["ops"]) and o[0] == "g" and case["ops"][i + 1][0] == "g" and o[2] == 30 and case["ops"][i + 1][2] == 31:
             return "C02/pair-partner-of-r30-is-sp-instead-of-zr/%s" % enc
+        if sy[0] == "SVecListElem":
+            regs = case["ops"][i:i + sy[1]]
+            if any(x[0] != "v" for x in regs) or len(regs) < sy[1]:
+                return "C02/register-list-unchecked/%s" % enc
+            if any(x[1] != 4 or x[2] != sy[2] or x[3] != regs[0][3] or x[3] < 0 for x in regs):
+                return "C02/vector-operand-type-unchecked/%s/list" % enc
+            if regs[0][3] >= sy[6]:
+                return "C02/lane-index-unchecked/%s/op0" % enc
+            if any((regs[0][4] + q) % 32 != regs[q][4] for q in range(len(regs))):
+                return "C02/register-list-not-consecutive-accepted/%s" % enc
+            i += sy[1]
+            continue
         if sy[0] == "SVecList":
             regs = case["ops"][i:i + sy[1]]
             if any(x[0] != "v" for x in regs) or len(regs) < sy[1]:
@@ -990,6 +1032,13 @@ class Judge:
                 continue
             if I["ok"] and O[1] == I["words"] and (not M["ok"] or M["words"] != I["words"]):
                 still.add(key)
+            elif I["ok"] and O[1] != I["words"]:
+                # the row is outside the model (recorded DB defect), but the assembler and llvm-mc can still be compared directly
+                enc = self.enc_of.get(c["entry"].get("inst_id"), "?")
+                hexw = lambda ws: ["%08X" % w for w in ws]
+                self.ck.violation("C02/wrong-encoding/%s/%s" % (enc, c["entry"]["row"]["name"]),
+                                  "`%s`: a64::Assembler emitted %s, llvm-mc assembles it to %s (row excluded from the model as a database defect: compared with llvm-mc only)" % (
+                                      c["asm"], hexw(I["words"]), hexw(O[1])), {"command": c["cmd"], "asm": c["asm"], "db_row": key})
         return still, seen
 
     def one(self, c, xi, xm):
@@ -1269,7 +1318,11 @@ def run(ck):
                 "every shift/extend kind x boundary amounts, offsets at both limits, one step outside, misaligned, branch distances at +-limit), operand-count "
                 "perturbations; phase 2: random combinations of the strata phase 1 found accepted and right; non-trivial = distinct (row, emitted words) "
                 "pairs the implementation accepted",
-        "samples": J.samples, "stats": stats, "cases_by_kind": J.by_why,
+        "example_cases": J.samples, "stats": stats, "cases_by_kind": J.by_why,
+        "proved_vs_compared": {
+            "proved_for_all_operands": "the theorems listed under `theorems` (Coq, closed): about the Gallina specification built from the database rows - all rows, all operands",
+            "regenerated_every_run": "database rows -> IsaA64Db.v, row-pair disjointness -> IsaA64Disjoint.v, EncodingData constants and source literals -> A64Tables.v (reflection lemmas re-checked when they differ from the committed snapshot)",
+            "compared_on_generated_cases_only": "a64::Assembler words / refusals vs the extracted specification vs llvm-mc: %d cases of this run (deterministic strata per operand syntax at the proofs' case-split boundaries, pair strata, seeded random combinations); not a proof about the C++ code" % J.ncases},
         "db_rows_total": len(b["rows"]), "db_rows_supported": len(b["sup"]), "db_rows_exercised": len(J.rows_hit), "db_rows_with_accepted_case": len(J.rows_accept),
         "gp_rows_total": len(gp_rows), "gp_rows_supported": len([e for e in b["sup"] if "GP" in e["row"]["cat"]]),
         "simd_rows_total": len(simd_rows), "simd_rows_supported": len([e for e in b["sup"] if "ASIMD" in e["row"]["cat"]]),
@@ -1277,7 +1330,7 @@ def run(ck):
         "oracle_unknown_mnemonics": sorted(J.oracle_unknown_mn), "oracle_unavailable_rows": len(J.oracle_unavail_rows),
         "impl_refuses_encodable_by_form": dict(sorted(J.spurious.items(), key=lambda x: -x[1])[:60]),
         "out_of_scope_shapes_accepted_by_impl": J.out_of_scope_accepted,
-        "encoding_tables": {"table_words_dumped": tb["dumped"], "entries_compared_with_db_rows": tb["entries"], "instructions_covered": tb["instructions_covered"],
+        "encoding_tables": {"table_words_dumped": tb["dumped"], "entries_compared_with_db_rows": tb["entries"], "instructions_covered": tb["instructions_covered"], "literal_opcode_entries": tb["literal_entries"],
                             "instructions_total": 774, "classes_not_covered": tb["classes_not_covered"],
                             "without_supported_rows": tb["without_supported_rows"]},
         "rows_disjoint": {"row_pairs": len(b["sup"]) * (len(b["sup"]) - 1) // 2, "pairs_not_separated_by_fixed_bits": len(b["overlap"]),
